@@ -443,6 +443,83 @@ theorem C04_dedup_off_fullrange (r : RReplica) (S : List Sample) (qmint qmaxt : 
   simp only [List.map_cons] at hunion
   rw [hunion]
 
+/-- **C04, dedup off, any query range.**  `C04_dedup_off` holds: whatever `[qmint, qmaxt]` is
+    (cutting the series, outside it, …) and however the replica's cuts overlap, the series returned
+    for the replica holds, inside the range, exactly the samples of `S` inside the range.  The
+    stores' range filter (only chunks that overlap the range are sent) is part of the model. -/
+theorem C04_dedup_off_holds : C04_dedup_off := by
+  intro r S qmint qmaxt hS hpos hcutr hcov out hsel
+  unfold selectRaw at hsel
+  generalize hcs : proxyChunks qmint qmaxt r.chunks = cs at hsel
+  have hcsdef : cs = sortChunks (dedupContent (r.chunks.filter (inRange qmint qmaxt))) := by
+    rw [← hcs]; rfl
+  have hsub : ∀ c ∈ cs, c ∈ r.chunks := by
+    intro c hc; rw [hcsdef] at hc
+    exact (List.mem_filter.mp (mem_dedupContent_sub (mem_sortChunks.mp hc))).1
+  have hcut : ∀ c ∈ cs, c.samples ≠ [] ∧ c.samples <:+: S := fun c hc => hcutr c (hsub c hc)
+  have hsorted : cs.Pairwise (fun a b => a.mint ≤ b.mint) := by rw [hcsdef]; exact sortChunks_sorted _
+  cases hcs2 : cs with
+  | nil => rw [hcs2] at hsel; simp at hsel
+  | cons c0 cs' =>
+    rw [hcs2] at hsel
+    simp only [List.isEmpty_cons, Bool.false_eq_true, if_false, List.map_cons] at hsel
+    have hc0 : ChunkOK c0.samples := ⟨(hcut c0 (by rw [hcs2]; simp)).1,
+      fun x hx => hpos x ((hcut c0 (by rw [hcs2]; simp)).2.subset hx)⟩
+    have hcs'ok : ∀ d ∈ cs'.map (·.samples), ChunkOK d := by
+      intro d hd
+      obtain ⟨c, hc, rfl⟩ := List.mem_map.mp hd
+      exact ⟨(hcut c (by rw [hcs2]; simp [hc])).1,
+        fun x hx => hpos x ((hcut c (by rw [hcs2]; simp [hc])).2.subset hx)⟩
+    obtain ⟨V, abs, hl, hi⟩ := cs_goodN c0.samples (cs'.map (·.samples)) hc0 hcs'ok
+    -- the union is time-sorted
+    have hLs : SSorted (unionFrom 0 (c0.samples :: cs'.map (·.samples))) := by
+      apply (unionFrom_sorted _).1
+      intro d hd
+      have : d ∈ (c0 :: cs').map (·.samples) := by simpa using hd
+      obtain ⟨c, hc, rfl⟩ := List.mem_map.mp this
+      exact List.Pairwise.sublist (hcut c (by rw [hcs2]; exact hc)).2.sublist hS
+    have hdrain := bnd_drain (o := csOps) hl qmint qmaxt hi hLs
+    have hit : chunkSeriesIt qmint qmaxt (c0.samples :: cs'.map (·.samples)) =
+        some { σ := Bnd CS, ops := bndOps csOps qmint qmaxt,
+               st := { inner := (csIt c0.samples (cs'.map (·.samples))).st, bad := false, stopped := false } } := rfl
+    rw [hit] at hsel
+    simp only at hsel
+    rw [hdrain] at hsel
+    simp only [Option.some.injEq] at hsel
+    refine ⟨_, hsel.symm, ?_⟩
+    -- the result is S inside the range
+    have hmemU := mem_unionFrom_cuts S hS (c0 :: cs') 0 (by rw [← hcs2]; exact hcut)
+      (by rw [← hcs2]; exact hsorted)
+    simp only [List.map_cons] at hmemU
+    have hres : takeLe qmaxt (dropLt qmint (unionFrom 0 (c0.samples :: cs'.map (·.samples)))) =
+        S.filter (inQuery qmint qmaxt) := by
+      apply ssorted_ext
+      · exact List.Pairwise.sublist ((takeLe_sublist _ _).trans (dropLt_sublist _ _)) hLs
+      · exact List.Pairwise.sublist List.filter_sublist hS
+      · intro x
+        rw [mem_takeLe_sorted (ssorted_dropLt _ hLs), mem_dropLt_sorted hLs, hmemU x, List.mem_filter]
+        simp only [inQuery, Bool.and_eq_true, decide_eq_true_eq]
+        constructor
+        · rintro ⟨⟨⟨⟨c, hc, hxc⟩, _⟩, h1⟩, h2⟩
+          exact ⟨(hcut c (by rw [hcs2]; exact hc)).2.subset hxc, h1, h2⟩
+        · rintro ⟨hxS, h1, h2⟩
+          obtain ⟨c, hc, hxc⟩ := hcov x hxS
+          have hb := mem_chunk_bounds hS (hcutr c hc).2 hxc
+          have hcin : c ∈ r.chunks.filter (inRange qmint qmaxt) := by
+            apply List.mem_filter.mpr
+            refine ⟨hc, ?_⟩
+            simp only [inRange, Bool.and_eq_true, decide_eq_true_eq]
+            omega
+          obtain ⟨c', hc', hs'⟩ := dedupContent_complete hcin
+          have hc'cs : c' ∈ c0 :: cs' := by
+            rw [← hcs2, hcsdef]; exact mem_sortChunks.mpr hc'
+          have := hpos x hxS
+          exact ⟨⟨⟨⟨c', hc'cs, by rw [hs']; exact hxc⟩, by omega⟩, h1⟩, h2⟩
+    rw [hres]
+    apply List.filter_eq_self.mpr
+    intro x hx
+    exact (List.mem_filter.mp hx).2
+
 /-- non-vacuity: a replica of `S = [10, …, 50]` with overlapping and repeated chunks -/
 example : selectRaw 1 100 { rid := 0, chunks := [
       { store := 0, rank := 0, samples := [⟨10, 1⟩, ⟨20, 2⟩, ⟨30, 3⟩] },
@@ -451,6 +528,15 @@ example : selectRaw 1 100 { rid := 0, chunks := [
       { store := 0, rank := 0, samples := [⟨30, 3⟩] },
       { store := 0, rank := 0, samples := [⟨40, 4⟩, ⟨50, 5⟩] } ] }
     = some (some [⟨10, 1⟩, ⟨20, 2⟩, ⟨30, 3⟩, ⟨40, 4⟩, ⟨50, 5⟩]) := by decide
+
+/-- … and with a query range that cuts the series (the chunk `[40, 50]` still overlaps it and
+    is sent, the chunk beyond would not be) -/
+example : selectRaw 15 40 { rid := 0, chunks := [
+      { store := 0, rank := 0, samples := [⟨10, 1⟩, ⟨20, 2⟩, ⟨30, 3⟩] },
+      { store := 1, rank := 0, samples := [⟨20, 2⟩, ⟨30, 3⟩, ⟨40, 4⟩] },
+      { store := 0, rank := 0, samples := [⟨40, 4⟩, ⟨50, 5⟩] },
+      { store := 0, rank := 0, samples := [⟨60, 6⟩] } ] }
+    = some (some [⟨20, 2⟩, ⟨30, 3⟩, ⟨40, 4⟩]) := by decide
 
 /-- non-vacuity: two replicas of `S = [10, 20, 30, 40, 50]` cut differently (`[10,20][30,40,50]` on
     stores 0/1 and `[10][20,30][40,50]` on stores 1/0/2), query range `[1, 100]` -/
